@@ -59,6 +59,16 @@ theorem choose_first (o h e p : Option Nat) (u : Nat) :
     (chooseEncoding o h e p u).1 = ((o.or h).or (e.or p)).getD u := by
   cases o <;> cases h <;> cases e <;> cases p <;> rfl
 
+/-- an explicit override decides at every level, whatever the nested sheet says about itself -/
+theorem nested_override (o : Nat) (h1 e1 p1 h2 e2 : Option Nat) (u : Nat) :
+    chooseNested (some o) h1 e1 p1 h2 e2 u = (o, .override) := rfl
+
+/-- without an override the nested sheet's own sources come first, then the encoding the importing
+(imported) sheet was decoded with — unless that was only the UTF-8 default -/
+theorem nested_first (h1 e1 p1 h2 e2 : Option Nat) (u : Nat) :
+    (chooseNested none h1 e1 p1 h2 e2 u).1 = ((h2.or e2).or ((h1.or e1).or p1)).getD u := by
+  cases h1 <;> cases e1 <;> cases p1 <;> cases h2 <;> cases e2 <;> rfl
+
 /-! ### whatever the fetcher does -/
 
 def loads (f : Fetch) : Bool := f = .text || f = .bytesOk
